@@ -17,7 +17,7 @@ META = {
              "non-trivial = (by the model) the last-ending operation of some (sub-)circuit is not a relation leaf or the earliest-starting one is not a head"),
     "assumptions": ["reference model qv/model.py; span computed from the library's own reported operation times at the same step as well"],
     "floors": {
-        "quick": {"durations_compared": 40000, "growth_rereads": 3000, "forms_compared": 20000, "group_follower_checks": 2000, "registry_reassignments": 10000, "follower_checks": 5000, "empty_circuits": 1000, "label_non-leaf-last-end": 1000, "label_early-start": 3000, "label_nested-block-early-start": 500},
+        "quick": {"durations_compared": 40000, "growth_rereads": 3000, "forms_compared": 20000, "relations_to_former_blocks_checked": 300, "group_follower_checks": 2000, "registry_reassignments": 10000, "follower_checks": 5000, "empty_circuits": 1000, "label_non-leaf-last-end": 1000, "label_early-start": 3000, "label_nested-block-early-start": 500},
         "thorough": {"durations_compared": 500000, "follower_checks": 50000, "empty_circuits": 10000},
     },
 }
@@ -148,7 +148,18 @@ def check_program(prog: Dict[str, Any], acc: Acc, flags=None):
         # ---- the same program unrolled, and flattened: duration == span of the reported times, and whatever follows a group of
         #      operations (repeated copies, flattened blocks) starts after ALL of them have ended
         for form in ("unrolled", "flattened"):
-            fresh = bp.build(prog, bp.Ctx(prog.get("settings"))).top.circuit
+            built_f = bp.build(prog, bp.Ctx(prog.get("settings")))
+            fresh = built_f.top.circuit
+            # operations of the top level that are explicitly related to a whole sub-circuit (count 1): remembered with the block's
+            # leaf objects, which flatten keeps
+            related = []
+            if form == "flattened":
+                for h, child, step in zip(built_f.top.handles, built_f.top.children, prog["circuit"]["steps"]):
+                    rel = step.get("rel")
+                    if child is None and rel is not None and built_f.top.children[rel[1]] is not None:
+                        block = built_f.top.handles[rel[1]]
+                        if M.reps_of(built_f.top.mnodes[rel[1]], S) == 1:
+                            related.append((h, rel[0], snap.walk_leaves(block), _head_leaves(block)))
             try:
                 circ = fresh.apply_modifiers() if form == "unrolled" else fresh.flatten()
             except RecursionError:
@@ -165,6 +176,24 @@ def check_program(prog: Dict[str, Any], acc: Acc, flags=None):
             elif abs(rep_f - span_f) > TOL:
                 acc.finding("duration/span-" + form, f"duration of the {form} circuit is not the span of its operation times", case, {"duration": rep_f, "span": span_f})
             pos_f = {id(o): k for k, o in enumerate(ops_f)}
+            # relations to a former sub-circuit still hold after flatten() (flatten removes the nesting only): FOLLOWED_BY starts after
+            # ALL of the former block's operations ended, JOINED_START starts with its first operations, JOINED_END ends with its last
+            for h, rtype, leaves, heads in related:
+                idx = [pos_f.get(id(x)) for x in leaves]
+                hidx = [pos_f.get(id(x)) for x in heads]
+                if id(h) not in pos_f or not idx or any(p is None for p in idx) or not hidx or any(p is None for p in hidx):
+                    continue
+                head_start = min(sh_f[p][0] for p in hidx)
+                if min(sh_f[p][0] for p in idx) < head_start - TOL:
+                    continue            # content starting before the block's first operations: outside the consequence clause
+                acc.count("relations_to_former_blocks_checked")
+                hs, he = sh_f[pos_f[id(h)]]
+                last = max(sh_f[p][1] for p in idx)
+                ok = {"FOLLOWED_BY": hs >= last - TOL, "JOINED_START": abs(hs - head_start) <= TOL, "JOINED_END": abs(he - last) <= TOL}[rtype]
+                if not ok:
+                    acc.finding("flatten/relation-to-former-block", f"after flatten() an operation {rtype} a former sub-circuit no longer sits where that relation says", case,
+                                {"type": rtype, "op": [hs, he], "block_first_start": head_start, "block_last_end": last})
+                    break
             for k, op in enumerate(ops_f):
                 li = snap.link_info(op)
                 if li["kind"] != "multi" or li["type"] != "FOLLOWED_BY" or not li["refs"]:
